@@ -59,7 +59,15 @@ class PyFunction(pyobjects.PyFunction):
     def get_parameters(self):
         if self.parameter_pynames is None:
             result = {}
-            for index, name in enumerate(self.get_param_names()):
+            names = self.get_param_names()
+            # positional-only and keyword-only parameters are names of the
+            # function scope, too
+            names += [
+                node.arg
+                for node in self.arguments.posonlyargs + self.arguments.kwonlyargs
+                if node.arg not in names
+            ]
+            for index, name in enumerate(names):
                 # TODO: handle tuple parameters
                 result[name] = pynamesdef.ParameterName(self, index)
             self.parameter_pynames = result
